@@ -216,6 +216,20 @@ CHECKS = {
         "Expr.cumsum/... API), which the property allows.",
         "4/C03",
     ),
+    "C27": (
+        "reference-model runtime monitor: per-ordered-partition reference vs Pandas, SQLite, PostgreSQL dialect, Polars",
+        "Windowed extends (optionally behind a row filter, optionally preceded by another ordered window over the same "
+        "partition with the order columns permuted / reversed differently) for cumsum/cummax/cummin/cumprod, "
+        "_row_number, shift(1|2|-1), first/last, ffill/bfill with order_by and sum/mean/min/max/count/size/_size/std/"
+        "var/median/nunique with partition only, over 0-2 partition columns (null keys included), 1-3 order columns "
+        "with ties in single columns (total jointly) and any reversal subset. Each backend that supports the function "
+        "(method catalog; Polars whenever it returns) must give every row the value a 100-line reference computes "
+        "over that row's partition in the declared order; agreement with one reference implies pairwise agreement.",
+        "Trusted: the reference (vf/refwin.py). Not judged: running functions at rows whose own value is null, "
+        "std/var of < 2 values, sum of an all-null partition, first/last of a null, rank and cumcount (meaning not "
+        "fixed by the documentation). PostgreSQL dialect runs on the SQLite surrogate.",
+        "4/C27",
+    ),
 }
 
 NOT_BUILT = "check not built yet (build in progress, see DESIGN.md section 8)"
